@@ -415,7 +415,7 @@ def drv_flag_histories(c, ctx, col):
 # valid Python fragments with unusual callee / node shapes, in every operand position ---------------------------
 
 PY_SHAPES = [
-    "f(a)[0](b)", "fs[0](a)", "f(a)(b)", "f(a).g(b)", "fs[0][1](a, b)", "m.fs[0](a)", "f(a)[0]", "f(a).b", "f(g(a))(b)",
+    "f(a)[0](b)", "fs[0](a)", "f(a)(b)", "{f(a).g(b)}", "fs[0][1](a, b)", "m.fs[0](a)", "f(a)[0]", "{f(a).b}", "f(g(a))(b)",
     "{(lambda v: v)(a)}", "{(f or g)(a)}", "{(f if c else g)(a)}", "{[f][0](a)}", "{{'k': f}['k'](a)}", "{(f, g)[0](a)}",
     "{f(a)(b)(c)}", "{(f)(a)}", "{(not f)(a)}", "{(-f)(a)}", "{(f + g)(a)}", '{f"{a}"}', "{[v for v in a]}", "{{v: v for v in a}}",
     "{{v for v in a}}", "{(v for v in a)}", "{a[b:c, ...]}", "{a[::2]}", "{(y := a)}", "{lambda: a}", "{lambda v=a: v}",
@@ -439,8 +439,8 @@ def drv_py_shapes(c, ctx, col):
 
 # several back-quoted names that sanitize to the same Python alias ------------------------------------------------
 
-COLLIDING = [["a b", "a+b", "a-b", "a:b"], ["x 1", "x.1", "x-1", "x(1"], ["1", "_1", " 1", "+1"]]
-COLLISION_WATCHDOG_S = 2.0
+COLLIDING = [["a b", "a+b", "a-b", "a:b"], ["x 1", "x.1", "x-1", "x+1"]]
+COLLISION_WATCHDOG_S = 1.0
 
 
 def drv_alias_collisions(c, ctx, col):
@@ -449,9 +449,9 @@ def drv_alias_collisions(c, ctx, col):
     names, pool = [], list(fam)
     for _ in range(k):                        # every ordered selection of k distinct names
         names.append(pool.pop(c.choose(len(pool))))
-    if c.flag():
+    if k == 2 and c.flag():
         names = names + [names[0]]            # ... optionally mentioning the first one again
-    form = c.pick(["f(%s)", "{%s}", "f(%s) ~ x"])
+    form = c.pick(["f(%s)", "{%s}"])
     args = (", " if form.startswith("f(") else " + ").join("`%s`" % n for n in names)
     s = form % args
     judge(col, "alias-collisions", s, True, FLAG_SETS[0], None, watchdog=COLLISION_WATCHDOG_S)
@@ -559,12 +559,14 @@ def subchecks(tier, seed):
             bounds={"operators": OPS, "operands": MS_OPERANDS, "shapes": MS_SHAPES, "flag_sets": [list(f) for f in MS_FLAGS]}),
     ]
     res_forms = [("resolver", f1, f2) for f1 in SPEC_FORMS for f2 in SPEC_FORMS]
+    if quick:
+        res_forms = [("resolver", "enum", "set"), ("resolver", "set", "enum"), ("resolver", "enum", "enum"), ("resolver", "names", "SET")]
     subs.append(Sub("flag-configs", drv_flag_histories,
                     {"init_flags": FLAG_SETS, "init_forms": SPEC_FORMS + res_forms, "min_depth": 0, "depth": 1 if quick else 2,
                      "step_forms": SPEC_FORMS, "subsets": FLAG_SETS, "subsets_deep": FLAG_SETS}, shard_depth=3,
                     bounds={"constructed_with": "all 8 subsets x {FeatureFlags value, set of lower-case names, set of upper-case names, "
-                                                "set using 'all'/'default'/'none'} given to DefaultFormulaParser(feature_flags=...), and the "
-                                                "16 spelling pairs of DefaultFormulaParser(operator_resolver=DefaultOperatorResolver("
+                                                "set using 'all'/'default'/'none'} given to DefaultFormulaParser(feature_flags=...), and "
+                                                + ("4" if quick else "all 16") + " spelling pairs of DefaultFormulaParser(operator_resolver=DefaultOperatorResolver("
                                                 "feature_flags=S), feature_flags=S)",
                             "events": "0..1" if quick else "0..2",
                             "each_event": "set_feature_flags on {parser, resolver} x 4 spellings x 8 subsets, or pickle round-trip, or deepcopy",
@@ -586,7 +588,7 @@ def subchecks(tier, seed):
                             "positions": PY_POSITIONS, "intercept": "both"}))
     subs.append(Sub("alias-collisions", drv_alias_collisions, {}, shard_depth=2,
                     bounds={"families": COLLIDING, "names_per_fragment": "every ordered selection of 2, 3, 4 distinct names, optionally "
-                                                                          "repeating the first", "forms": ["f(..)", "{.. + ..}", "f(..) ~ x"],
+                                                                          "repeating the first (pairs)", "forms": ["f(..)", "{.. + ..}"],
                             "watchdog_s": COLLISION_WATCHDOG_S}))
     subs.append(Sub("long-inputs", drv_long, {}, shard_depth=2,
                     bounds={"repetitions": LONG_COUNTS, "constructs": [(nm, ex, mx) for nm, ex, mx in LONG_CONSTRUCTS],
